@@ -129,6 +129,14 @@ func exprRejected(m *c06Model, n *Node) bool {
 	return false
 }
 
+func opaqueLeaf(k string) bool {
+	switch k {
+	case "slice", "array", "map", "imap", "ptr", "tnil":
+		return true
+	}
+	return false
+}
+
 func (m *c06Model) valid() bool {
 	if m.kw == "" || m.op == nil || m.ex == nil {
 		return false
@@ -249,6 +257,10 @@ func runC06(c C06Case) (st Stats, err error) {
 				return
 			}
 			want := m.render()
+			if m.valid() && m.ex.IsLeaf() && opaqueLeaf(m.ex.Leaf.K) {
+				// how a value of a non-primitive Go type is spelled is not part of the statement: only gating (above) is checked
+				want = str
+			}
 			if !matchPattern(want, str) {
 				v = violf("String/render", "%s: String()=%q, canonical %q", where, str, showPattern(want))
 				return
@@ -334,6 +346,12 @@ func runC06(c C06Case) (st Stats, err error) {
 				cls = "SetExpression"
 				if s.Ex != nil {
 					st.Class("expr-" + s.Ex.T)
+					if s.Ex.IsLeaf() && opaqueLeaf(s.Ex.Leaf.K) {
+						st.Class("expr-opaque-go-type")
+						if m.ex != nil && m.ex.IsLeaf() && m.ex.Leaf.K == s.Ex.Leaf.K && m.err == nil {
+							st.Class("expr-opaque-same-type-twice")
+						}
+					}
 				}
 				if m.err != nil {
 					st.Class("expression-offered-under-error")
@@ -467,6 +485,17 @@ func genExpr(t *rapid.T) *Node {
 		e := LeafN(VS("inner"))
 		n := Node{T: "cond", KW: "ik", Op: OpEq(), Expr: &e}
 		return &n
+	case 6:
+		// values of Go types that cannot be compared with == (two consecutive offers of the same type included)
+		n := LeafN(genUncomparable(t, rapid.IntRange(0, 1).Draw(t, "utag")))
+		return &n
+	case 7:
+		z := genZooLeaf(t, rapid.IntRange(0, 1).Draw(t, "ztag"))
+		if !opaqueLeaf(z.K) {
+			z = Val{K: "tnil", Depth: 1} // (a Stringer answering "" is spelled in a way the statement does not fix)
+		}
+		n := LeafN(z)
+		return &n
 	}
 	n := LeafN(genPrimVal(t, false, true))
 	return &n
@@ -479,6 +508,7 @@ func genC06(t *rapid.T, tier Tier) C06Case {
 	}
 	n := rapid.IntRange(0, 25).Draw(t, "nsteps")
 	ops := []string{"kw", "op", "op", "ex", "ex", "ex", "nonest", "nopad", "paren", "encap", "seterr", "poke", "poke"}
+	lastEx := c.Ex
 	for i := 0; i < n; i++ {
 		s := C06Step{Op: rapid.SampledFrom(ops).Draw(t, "op")}
 		switch s.Op {
@@ -490,6 +520,20 @@ func genC06(t *rapid.T, tier Tier) C06Case {
 			s.Oper = &o
 		case "ex":
 			s.Ex = genExpr(t)
+			if lastEx != nil && lastEx.IsLeaf() && rapid.IntRange(0, 3).Draw(t, "sametype?") == 0 {
+				// another value of exactly the type offered last (same Go type, different content)
+				v := *lastEx.Leaf
+				switch {
+				case opaqueLeaf(v.K) && len(v.Elems) > 0 && v.K != "ptr":
+					v.Elems = append([]Val{}, v.Elems...)
+					v.Elems[0] = mutatePrim(v.Elems[0])
+				case v.K == "str" || v.K == "int" || v.K == "bool":
+					v = mutatePrim(v)
+				}
+				n := LeafN(v)
+				s.Ex = &n
+			}
+			lastEx = s.Ex
 		case "nonest", "nopad", "paren":
 			s.Mode = rapid.IntRange(0, 2).Draw(t, "mode")
 		case "seterr":
@@ -517,7 +561,7 @@ func init() {
 		Gen: genC06,
 		Run: runC06,
 		Floors: map[string]float64{"nil-operator": 0.1, "empty-operator": 0.05, "bogus-builtin-operator": 0.05, "stack-under-nonest": 0.03,
-			"expression-offered-under-error": 0.1, "start-Init": 0.2, "start-Cond": 0.4, "state-without-operator": 0.2, "expr-stack": 0.1, "expr-cond": 0.05},
+			"expression-offered-under-error": 0.1, "start-Init": 0.2, "start-Cond": 0.4, "state-without-operator": 0.2, "expr-stack": 0.1, "expr-cond": 0.05, "expr-opaque-go-type": 0.1, "expr-opaque-same-type-twice": 0.01},
 		Assumptions: []string{"no validity/presentation policy installed (C14)", "stack expressions without their own String method are C12's business and use aliases with String here"},
 	})
 }
